@@ -78,8 +78,23 @@ func (fr *frame) execInstr(in ssa.Instruction, st *State, reach string, b *ssa.B
 		fr.nilCheck(x.X, pv, reach, x.Pos())
 		pt := x.X.Type()
 		cont := pt.Underlying().(*types.Pointer).Elem()
-		ft := cont.Underlying().(*types.Struct).Field(x.Field).Type()
-		fr.vals[x] = &Val{lv: fr.ptrLV(pv, pt).extendField(x.Field, cont, ft)}
+		stt := cont.Underlying().(*types.Struct)
+		ft := stt.Field(x.Field).Type()
+		nv := &Val{lv: fr.ptrLV(pv, pt).extendField(x.Field, cont, ft)}
+		if n, ok := cont.(*types.Named); ok && n.Obj().Pkg() != nil && !fr.pure {
+			if u.eng.mapInv["F:"+n.Obj().Pkg().Name()+"."+n.Obj().Name()+"."+stt.Field(x.Field).Name()] == "nonnil" {
+				nv.mapNonNil = true
+			}
+			if lockField, ok := u.eng.guards[n.Obj().Pkg().Name()+"."+n.Obj().Name()+"."+stt.Field(x.Field).Name()]; ok {
+				for li := 0; li < stt.NumFields(); li++ {
+					if stt.Field(li).Name() == lockField {
+						lk := &Val{lv: fr.ptrLV(pv, pt).extendField(li, cont, stt.Field(li).Type())}
+						nv.guard = u.define("guard", "Int", fr.lockID(lk, st))
+					}
+				}
+			}
+		}
+		fr.vals[x] = nv
 	case *ssa.Field:
 		sv := fr.valOf(x.X)
 		ft := x.X.Type().Underlying().(*types.Struct).Field(x.Field).Type()
@@ -137,6 +152,11 @@ func (fr *frame) execInstr(in ssa.Instruction, st *State, reach string, b *ssa.B
 		lv := fr.ptrLV(av, x.Addr.Type())
 		vv := fr.valOf(x.Val)
 		fr.storeSiteAsserts(x, st, reach)
+		if av.guard != "" && !fr.pure {
+			h := u.heapGet(st, "GH:locks", "(Array Int Int)")
+			u.oblige(fr.obName("guard-write", fr.describe(x.Addr, 0)), "lock", []string{"C20"}, reach,
+				fmt.Sprintf("(= (select %s %s) 2)", h, av.guard), fr.pos(x.Pos()), "guarded field is written only under the write lock")
+		}
 		if fr.pure {
 			if lv.kind == lvPure {
 				u.write(st, lv, fr.valTerm(vv, st))
@@ -214,10 +234,15 @@ func (fr *frame) execInstr(in ssa.Instruction, st *State, reach string, b *ssa.B
 			return
 		}
 		u.oblige(fr.obName("mapwrite", fr.describe(x.Map, 0)), "mapwrite", nil, reach, fmt.Sprintf("(not (= %s 0))", mv.t), fr.pos(x.Pos()), "")
+		if mv.guard != "" {
+			h := u.heapGet(st, "GH:locks", "(Array Int Int)")
+			u.oblige(fr.obName("guard-write", fr.describe(x.Map, 0)), "lock", []string{"C20"}, reach,
+				fmt.Sprintf("(= (select %s %s) 2)", h, mv.guard), fr.pos(x.Pos()), "guarded map is updated only under the write lock")
+		}
 		pn, ps, vn, vs := fr.mapHeaps(mt)
 		k := fr.valTerm(fr.valOf(x.Key), st)
 		v := fr.valTerm(fr.valOf(x.Value), st)
-		if g := globalMapOf(x.Map); g != "" && u.eng.mapInv[g] == "nonnil" {
+		if g := globalMapOf(x.Map); (g != "" && u.eng.mapInv[g] == "nonnil") || mv.mapNonNil {
 			u.oblige(fr.obName("mapinv", fr.describe(x.Map, 0)), "mapinv", nil, reach, nonNil(mt.Elem(), v), fr.pos(x.Pos()), "registry invariant: stored values are non-nil")
 		}
 		hp := u.heapGet(st, pn, ps)
@@ -312,7 +337,7 @@ func (fr *frame) execLookup(x *ssa.Lookup, st *State, reach string) *Val {
 		present := fr.defSort("present", "Bool", fmt.Sprintf("(and (not (= %s 0)) (select (select %s %s) %s))", xv.t, hp, xv.t, k))
 		val := fr.def("mval", xt.Elem(), ite(present, fmt.Sprintf("(select (select %s %s) %s)", hv, xv.t, k), s.zero(xt.Elem())))
 		fr.assumeWF(xt.Elem(), val, st, reach)
-		if g := globalMapOf(x.X); g != "" && u.eng.mapInv[g] == "nonnil" && !fr.pure {
+		if g := globalMapOf(x.X); ((g != "" && u.eng.mapInv[g] == "nonnil") || xv.mapNonNil) && !fr.pure {
 			u.assume(and(reach, present), nonNil(xt.Elem(), val))
 		}
 		if x.CommaOk {
@@ -343,7 +368,15 @@ func (fr *frame) execUnOp(x *ssa.UnOp, st *State, reach string) {
 		}
 		term := fr.def("ld", x.Type(), u.read(st, lv))
 		fr.assumeWF(x.Type(), term, st, reach)
-		fr.vals[x] = &Val{t: term}
+		nv := &Val{t: term}
+		if v.guard != "" && !fr.pure {
+			h := u.heapGet(st, "GH:locks", "(Array Int Int)")
+			u.oblige(fr.obName("guard-read", fr.describe(x.X, 0)), "lock", []string{"C20"}, reach,
+				fmt.Sprintf("(not (= (select %s %s) 0))", h, v.guard), fr.pos(x.Pos()), "guarded field is read only while its lock is held")
+			nv.guard = v.guard
+		}
+		nv.mapNonNil = v.mapNonNil
+		fr.vals[x] = nv
 	case token.NOT:
 		fr.vals[x] = &Val{t: not(v.t)}
 	case token.SUB:
